@@ -144,3 +144,24 @@ Example C13_trace_rejects :
        RvLock RvHs false; RvPop RvBufI None; RvCas RvHs (status_code StH) true ]
      O (init [] [[9]]) = RvBad 11 sb).
 Proof. repeat split; eexists; vm_compute; reflexivity. Qed.
+
+(* ---- the reset guard (repeated transfers, a reset request decided for an earlier state) ----
+   [rg_step ug] is the model with resetToStandby's CompareAndSwap(expected, standby) replaced,
+   for ug = true, by a reset from whatever state the relay is in.  The guarded variant is the
+   faithful model (so C13_inv .. C13_standby_identity are statements about it); the current
+   source has the guard (read off the regenerated skeleton); without it a stale reset of the
+   input reader -- decided while transfer 1 was transferring, executed after transfer 2's
+   trigger -- leaves a server chunk parked in standby and a later one overtakes it. *)
+Theorem C13_reset_guard_is_model : forall tm ls s, rg_run false tm ls s = run true tm ls s.
+Proof. exact rg_run_guarded. Qed.
+Print Assumptions C13_reset_guard_is_model.
+
+Theorem C13_reset_guard_present : rg_current = false /\ rg_unguarded Skel_relay.relay_skel = rg_current.
+Proof. exact reset_guard_ok. Qed.
+Print Assumptions C13_reset_guard_present.
+
+Theorem C13_reset_guard_needed :
+  exists cs ss sched s, rg_run true false sched (init cs ss) = Some s /\ ~ conserved_O (concat ss) s
+    /\ clog s = [9; 102; 7; 9; 6] /\ flat (obr s) (obq s) = [8] /\ st s = StS /\ rg_stranded s = true.
+Proof. exact reset_guard_needed. Qed.
+Print Assumptions C13_reset_guard_needed.
